@@ -541,6 +541,31 @@ func c04Check(src string, cfg c04Cfg, m Mode, base *c04Base, wantSteps *[2]strin
 			return k, d
 		}
 	}
+	// a builder is reconfigured between two builds: the next parser must behave like an interceptor-free
+	// parser of the NEW mode (options cached at the first Build would show here)
+	if cfg.NS >= 1 || len(cfg.Ex) >= 1 {
+		for _, m2 := range Modes {
+			if m2 == m {
+				continue
+			}
+			pb.WithTolerantMode(m2.Tolerant)
+			pb.WithSmartSemicolon(m2.Smart)
+			saved := lg
+			lg = c04Log{}
+			o3 := parseWith(pb, src)
+			lg = saved
+			b2 := parseMode(src, m2)
+			if o3.Panic != "" || b2.Panic != "" {
+				continue
+			}
+			if d3, d2 := dumpTree(o3.Prog), dumpTree(b2.Prog); d3 != d2 || len(o3.Errs) != len(b2.Errs) {
+				return "reconfigured-builder-differs", fmt.Sprintf("builder with interceptors built in mode %s, switched to %s and built again: tree %s with %d errors; an interceptor-free parser in mode %s: %s with %d errors",
+					m, m2, ref.XStmts(o3.Prog.Statements), len(o3.Errs), m2, ref.XStmts(b2.Prog.Statements), len(b2.Errs))
+			}
+		}
+		pb.WithTolerantMode(m.Tolerant)
+		pb.WithSmartSemicolon(m.Smart)
+	}
 	// a builder builds many parsers: the second parser built from the same builder behaves like the first
 	if cfg.NS >= 2 || active >= 2 || cfg.NT >= 2 {
 		first := lg
